@@ -105,6 +105,16 @@ class Ctx:
         self._ent_cache[k] = (c, r)     # the term is kept alive with its verdict (ids of dead terms are re-used by z3)
         return r
 
+    def instantiate(self, quantified, *terms):
+        """add the instance of a universally quantified hypothesis (already in the path condition / facts) at the given terms;
+        a proof hint only: the instance is a consequence of that hypothesis"""
+        assert z3.is_quantifier(quantified) and quantified.is_forall() and quantified.num_vars() == len(terms)
+        known = any(z3.eq(quantified, h) for h in self.pc) or any(z3.eq(quantified, h) for h in self.facts)
+        assert known, "instantiate(): the quantified formula is not a hypothesis of this path"
+        inst = z3.substitute_vars(quantified.body(), *reversed([term(t) for t in terms]))
+        self.pc.append(inst)
+        return inst
+
     def bind(self, t, hint="v"):
         """let-binding: a fresh constant defined equal to a large term (same term -> same constant)"""
         k = t.get_id()
@@ -305,17 +315,30 @@ class Session:
 
 
 # ----------------------------------------------------------------------------- solving
+PORTFOLIO = [({}, 0.2), ({"smt.random_seed": 7}, 0.2), ({"smt.mbqi": False, "auto_config": False}, 0.2), ({"smt.random_seed": 23, "smt.arith.nl": True}, 0.4)]
+
+
 def _solve_z3(hyps, goal, timeout_ms):
-    s = z3.Solver()
-    s.set("timeout", timeout_ms)
-    s.add(*hyps)
-    s.add(z3.Not(goal))
-    t = time.time()
-    r = s.check()
-    dt = time.time() - t
-    model = s.model() if r == z3.sat else None
-    reason = s.reason_unknown() if r == z3.unknown else ""
-    return r, model, dt, reason, s
+    """small portfolio: the same query under a few solver configurations (slow queries are the unstable ones;
+    a verdict is only taken from a configuration that decides: unsat from any, sat only with MBQI on)"""
+    total = 0.0
+    last = None
+    for opts, share in PORTFOLIO:
+        s = z3.Solver()
+        s.set("timeout", max(1000, int(timeout_ms * share)))
+        for k, v in opts.items():
+            s.set(k, v)
+        s.add(*hyps)
+        s.add(z3.Not(goal))
+        t = time.time()
+        r = s.check()
+        total += time.time() - t
+        last = s
+        if r == z3.unsat:
+            return r, None, total, "", s
+        if r == z3.sat and "smt.mbqi" not in opts:
+            return r, s.model(), total, "", s
+    return z3.unknown, None, total, last.reason_unknown(), last
 
 
 def _solve_cvc5(solver, timeout_ms):
